@@ -229,19 +229,25 @@ func (tf *TextField) Draw(ctx vxfw.DrawContext) (vxfw.Surface, error) {
 		Col:   0,
 		Shape: vaxis.CursorBlock,
 	}
-	chars := ctx.Characters(tf.Value)
 	var (
-		i   uint
-		col uint16
+		i       uint
+		col     uint16
+		cluster = ""
+		rest    = tf.Value
+		state   = -1
 	)
-	for _, char := range chars {
-		cell := vaxis.Cell{
-			Character: char,
-			Style:     tf.Style,
+	// The cursor counts graphemes: walk the value grapheme by grapheme. One
+	// grapheme can be drawn as several characters (a tab is eight blanks)
+	for len(rest) > 0 {
+		cluster, rest, _, state = uniseg.FirstGraphemeClusterInString(rest, state)
+		for _, char := range ctx.Characters(cluster) {
+			cell := vaxis.Cell{
+				Character: char,
+				Style:     tf.Style,
+			}
+			s.WriteCell(col, 0, cell)
+			col += uint16(char.Width)
 		}
-		s.WriteCell(col, 0, cell)
-
-		col += uint16(char.Width)
 		i += 1
 		if i == tf.cursor {
 			s.Cursor.Col = col
